@@ -1,3 +1,4 @@
+import SimbodyModel.Gen.StringConv
 /-!
 # C32 — text and serialization round trips (kind D; Mathlib-free)
 
@@ -12,6 +13,9 @@ Mirrors
   condensing.
 
 Strings are `List Char` with one `Char` per byte.
+
+`SimbodyModel/Gen/StringConv.lean` (regenerated from `String.cpp` on every run) says whether the three specialised
+conversions end with `return !sstream.fail();` (the pinned tree) or with a whole-string test; the model follows the code.
 -/
 namespace C32
 
@@ -227,9 +231,15 @@ def extractComplex : Extract (FV × FV) := fun s =>
 /-- `String::tryConvertTo<std::complex<double>>`: the generic template over the std extraction (no NaN/Inf spellings) -/
 def tryConvertComplex (s : List Char) : Option (FV × FV) := tryConvertGeneric extractComplex s
 
-def tryConvertDouble (s : List Char) : Option FV := tryConvertRealCoded extractDouble .nan (.inf false) (.inf true) s
-def tryConvertFloat (s : List Char) : Option FV := tryConvertRealCoded extractFloat .nan (.inf false) (.inf true) s
-def tryConvertBool (s : List Char) : Option Bool := tryConvertBoolCoded extractBool s
+/-- `String::tryConvertToDouble` as the current source has it (`Gen.checksRestDouble` is read off its final `return`) -/
+def tryConvertDouble (s : List Char) : Option FV :=
+  if Gen.checksRestDouble then tryConvertRealFixed extractDouble .nan (.inf false) (.inf true) s
+  else tryConvertRealCoded extractDouble .nan (.inf false) (.inf true) s
+def tryConvertFloat (s : List Char) : Option FV :=
+  if Gen.checksRestFloat then tryConvertRealFixed extractFloat .nan (.inf false) (.inf true) s
+  else tryConvertRealCoded extractFloat .nan (.inf false) (.inf true) s
+def tryConvertBool (s : List Char) : Option Bool :=
+  if Gen.checksRestBool then tryConvertBoolFixed extractBool s else tryConvertBoolCoded extractBool s
 def tryConvertInt (lo hi : Int) (s : List Char) : Option Int := tryConvertGeneric (extractInt lo hi) s
 
 /-! ## unformatted token streams (Serialize.h) -/
